@@ -112,7 +112,7 @@ func (c02) Gen(seed uint64, run int, tier, variant string) interface{} {
 	return &p
 }
 
-var c02IPAKinds = []string{"none", "none", "result-other", "result-other", "result-lookalike", "point-other", "point-lookalike", "replace-L", "replace-R", "replace-a", "shape-L", "shape-R", "repr", "zero-L", "zero-R", "commitment-other"}
+var c02IPAKinds = []string{"none", "none", "result-other", "result-other", "result-lookalike", "point-other", "point-lookalike", "replace-L", "replace-R", "replace-a", "shape-L", "shape-R", "repr", "zero-L", "zero-R", "commitment-other", "L-equals-R", "swap-LR"}
 
 func (c02) Decode(raw json.RawMessage) (interface{}, error) {
 	var p C02Plan
@@ -310,6 +310,10 @@ func c02ipa(p *C02Plan) Result {
 		dR[f.Pos%8] = poolP[r.Intn(poolSize)]
 	case "replace-a":
 		dA = r.Scalar()
+	case "L-equals-R":
+		dL[f.Pos%8] = dR[f.Pos%8]
+	case "swap-LR":
+		dL[f.Pos%8], dR[f.Pos%8] = dR[f.Pos%8], dL[f.Pos%8]
 	case "shape-L":
 		dL = dL[:f.Pos%8]
 		shape = true
